@@ -119,5 +119,40 @@ def prop_lrtdp(case, ctx):
     ctx.nontrivial(counts["trials"] >= 2 and stochastic and inexact)
 
 
-PROPS = [Prop("lrtdp", lambda tier: cases(tier), prop_lrtdp, quick=5000, thorough=100000,
+@st.composite
+def reuse_cases(draw, tier="quick"):
+    kw = dict(min_states=2, max_states=5, allow_explicit=False, schemes=("int",), absorbing_kinds=("n", "n", "n", "abs"))
+    a = draw(st.one_of(mdp_specs("ssp", **kw), mdp_specs("dproper", **kw)))
+    b = draw(st.one_of(mdp_specs("ssp", **kw), mdp_specs("dproper", **kw)))
+    return {"a": a, "b": b, "slack": draw(st.sampled_from([0, 0.5, 2])), "seed": draw(st.integers(0, 10 ** 6)),
+            "margin": draw(st.sampled_from([1e-1, 1e-2]))}
+
+
+def prop_reuse(case, ctx):
+    """the same state label may be absorbing in one problem and not in the other"""
+    from msdm.algorithms.lrtdp import LRTDP
+    from vpm.checks.reuse import check_reuse, policy_table
+    from vpm.checks.c03 import shared_heuristic
+    table, (ma, mb) = shared_heuristic(case)
+    from msdm.algorithms.lrtdp import LRTDPEventListener
+    counts = {"steps": 0}
+
+    class Budget(LRTDPEventListener):
+        def end_of_lrtdp_timestep(self, lv):
+            counts["steps"] += 1
+            if counts["steps"] > 300000:
+                raise Inconclusive("step budget")
+
+        def end_of_lrtdp_trial(self, lv):
+            pass
+    make = lambda: LRTDP(heuristic=lambda s: table[s], seed=case["seed"], bellman_error_margin=case["margin"],
+                         event_listener_class=Budget)
+    check_reuse(ctx, "C04.reuse", make, lambda pl, m: pl.plan_on(m),
+                lambda r, m: {"V": dict(r.V), "iv": r.initial_value, "pi": policy_table(r.policy, list(r.V.keys()))}, ma, mb)
+    ctx.nontrivial(case["a"] != case["b"])
+
+
+PROPS = [Prop("reuse", lambda tier: reuse_cases(tier), prop_reuse, quick=400, thorough=24000,
+              doc="an LRTDP object reused on a second MDP gives the same result as a fresh one"),
+         Prop("lrtdp", lambda tier: cases(tier), prop_lrtdp, quick=5000, thorough=300000,
               doc="LRTDP termination, upper-bound invariant, margin bounds, absorbing-state conventions")]
